@@ -186,7 +186,9 @@ def gen_tree(rng, prof=None, depth=0, idgen=None, top=True, maxdepth=None):
     spec['sdt'] = rng.choice(p.get('sdts', [1, 1, 0, 2, None]))
     spec['critical'] = rng.random() < p.get('p_sched_critical', 0.6)
     spec['forever'] = (not top) and rng.random() < p.get('p_forever_sched', 0.1)
-    spec['verbose'] = rng.random() < p.get('p_verbose', 0.08)
+    spec['verbose'] = rng.random() < p.get('p_verbose', 0.15)
+    if not top and rng.random() < 0.08:
+        spec['label'] = rng.choice([7, 3.5, -1, ''])    # labels need not be strings
     r = rng.random()
     if r < 0.25:
         spec['style'] = 'incremental'
@@ -197,7 +199,7 @@ def gen_tree(rng, prof=None, depth=0, idgen=None, top=True, maxdepth=None):
     if top and rng.random() < p.get('p_extcancel', 0.04):
         # the caller gives up after a while (the run may be over by then)
         spec['entry'] = dict(wait_for=rng.choice([0.5, 1, 1.5, 2, 2.5, 3, 4, 6]))
-    if spec['verbose'] and rng.random() < 0.5:
+    if rng.random() < (0.5 if spec['verbose'] else 0.06):
         spec['watch'] = True
     if top:
         spec['pure'] = rng.random() < p.get('p_pure', 0.25)
@@ -215,7 +217,7 @@ def gen_tree(rng, prof=None, depth=0, idgen=None, top=True, maxdepth=None):
             job['outcome'] = 'raise' if rng.random() < p.get('p_raise', 0.25) else 'return'
             if job['outcome'] == 'raise' and rng.random() < 0.4:
                 job['exc'] = rng.choice(['timeout', 'key', 'custom', 'base', 'empty', 'multiline', 'group', 'queue', 'runtime',
-                                         'notimpl', 'sealed', 'shared', 'shared'])
+                                         'notimpl', 'sealed', 'shared', 'shared', 'unhashable', 'unhashable', 'braces'])
             if job['outcome'] == 'return' and rng.random() < 0.2:
                 job['retval'] = rng.choice(['none', 'false', 'zero', 'empty', 'future', 'pending', 'excval'])
             job['cdur'] = rng.choice(p.get('cdurs', [0, 0, 0, 1, 2]))
@@ -242,6 +244,8 @@ def gen_tree(rng, prof=None, depth=0, idgen=None, top=True, maxdepth=None):
                                    rounds=rng.choice([1, 1, 2]))
             if not job.get('print') and rng.random() < 0.06:
                 job['touch'] = True
+            if rng.random() < 0.08:
+                job['label'] = rng.choice([7, 3.5, -1, ''])     # labels need not be strings
             if not job.get('print') and job['dur'] and rng.random() < p.get('p_sub', 0.06):
                 # the job spends its main delay in tasks of its own
                 job['sub'] = rng.choice(['gather', 'taskgroup', 'shield'])
@@ -513,13 +517,14 @@ def gap_sweep(thorough=False):
         for win in (1, 2, 3):
             # a timeout that is never reached must change nothing (but makes
             # the library take its deadline-aware paths)
-            for tmo in (None, 50):
+            for tmo, verbose in ((None, False), (50, False), (None, True)):
                 jobs = [atom('A', 1, post=pa, outcome='raise', critical=False),
                         atom('B', 1, post=pb),
-                        atom('C', 1), atom('D', 0.5, coro=True), atom('E', 1),
-                        atom('F1', 2.5), atom('F2', 3), atom('F3', 1, post=(pa + pb) % 4)]
-                edges = [('C', 'A'), ('C', 'B'), ('D', 'A'), ('D', 'B'), ('E', 'A')]
-                yield assign_hashes(sched('W', jobs, edges=edges, window=win, timeout=tmo))
+                        atom('C', 1), atom('D', 2.5, coro=True), atom('E', 1),
+                        atom('F1', 2.5), atom('F2', 3), atom('F3', 1, post=(pa + pb) % 4),
+                        atom('G', 0.5), atom('H', 0.5)]
+                edges = [('C', 'A'), ('C', 'B'), ('D', 'A'), ('D', 'B'), ('E', 'A'), ('G', 'D'), ('H', 'C')]
+                yield assign_hashes(sched('W', jobs, edges=edges, window=win, timeout=tmo, verbose=verbose))
 
 
 def fanout_sweep(thorough=False):
